@@ -73,6 +73,7 @@ func (c *vxCountCurve) Evaluate() (int, error) {
 func (c *vxCountCurve) CurrentValue() int { return 100 }
 
 type vxC15World struct {
+	twinPwm  string
 	cfg      vxC15Cfg
 	dir      string
 	fs       *env.FS
@@ -133,6 +134,9 @@ func vxC15NewWorld(cfg vxC15Cfg, fs *env.FS, scratch string) *vxC15World {
 	}
 	// a second, never started fan whose id sorts before vxfan (target of `fan reset -i afan`)
 	w.otherPwm = fs.Add("otherfan/pwm", 55)
+	// a third, never started fan whose id differs from vxfan only in letter case and which is listed before it
+	// (ids are case-sensitive: `fan --id vxfan ...` must never resolve to it)
+	w.twinPwm = fs.Add("twinfan/pwm", 66)
 	w.confMap = cfg.ConfMap
 	w.writeConfig()
 	return w
@@ -160,6 +164,10 @@ fans:
     curve: vxcurve
     file:
       path: %s
+  - id: VXFAN
+    curve: vxcurve
+    file:
+      path: %s
   - id: vxfan
     curve: vxcurve
     neverStop: false
@@ -173,7 +181,7 @@ curves:
       sensor: vxsensor
       min: 40
       max: 80
-`, w.dbPath, w.otherPwm, w.fanYaml, extra, temp)
+`, w.dbPath, w.otherPwm, w.twinPwm, w.fanYaml, extra, temp)
 	if err := os.WriteFile(w.cfgPath, []byte(yaml), 0644); err != nil {
 		panic(err)
 	}
